@@ -116,6 +116,9 @@ def probe_source(probes, with_attrs):
         if k % 4 == 2:
             t_attr, i_attr, m_attr, mod_attr = [re.sub(r'rename = ("[^"]*")', r"rename(\1)", a) for a in (t_attr, i_attr, m_attr, mod_attr)]
         tk = TYPE_KINDS[k % len(TYPE_KINDS)]
+        if k % 5 == 0 and kind in ("type-disable", "module-disable", "method-disable", "type-disable-split"):
+            # a demo_gen custom function file on the probe type (read by demo_gen only): a type disabled there takes it along (seed C13-j)
+            t_attr += "    #[diplomat::demo(custom_func = \"cf_%s.mjs\")]\n" % ty
         if tk == "opaque":
             decl = "    #[diplomat::opaque]\n    pub struct %s(pub u8);\n" % ty
             mk = "Box<%s> { Box::new(%s(0)) }" % (ty, ty)
@@ -235,6 +238,9 @@ def main(tier, seed):
             os.makedirs(os.path.join(d, name))
             srcs[name] = os.path.join(d, name, "lib.rs")
             open(srcs[name], "w").write(probe_source(batch, wa))
+            for k_, kind_, f_ in batch:
+                if k_ % 5 == 0:
+                    open(os.path.join(d, name, "cf_P%d.mjs" % k_), "w").write("export default {\n  \"P%d.custom\": { func: () => \"custom\", funcName: \"P%d.custom\", parameters: [] }\n};\n" % (k_, k_))
         # the Rust library still exports every function, attribute or not
         rc, o, e = toolrun.rustc_lib(srcs["attr"], os.path.join(d, "lib.a"))
         if rc != 0:
@@ -311,6 +317,11 @@ def main(tier, seed):
                     kind = kind[:-6]
                 if kind in ("type-disable", "module-disable"):
                     present = any(sym.values()) or bool(type_files(fa, ty))
+                    if b == "demo_gen" and k % 5 == 0:
+                        cf = ("cf_%s.mjs" % ty) in fa or any("RenderTermini%s" % ty in t_ for p_, t_ in fa.items() if p_.endswith("index.mjs"))
+                        present = present or cf
+                        if not v and kind == "type-disable" and not cf:
+                            bad("condition false but the custom function file of %s is not taken along" % ty)
                     if v and present:
                         bad("condition true but %s is still present (%s)" % (ty, [m for m, x in sym.items() if x] or list(type_files(fa, ty))[:2]))
                     if not v and not (sym["pa"] and sym["destroy"]):
